@@ -27,6 +27,8 @@ mod c20;
 mod c07;
 mod c08;
 mod c06;
+mod stmtcases;
+mod c14;
 
 fn main() {
     util::silence_panics();
@@ -97,6 +99,7 @@ fn main() {
                 "C06" => c06::run(&params),
                 "C07" => c07::run(&params),
                 "C08" => c08::run(&params),
+                "C14" => c14::run(&params),
                 _ => { eprintln!("unknown property {}", id); std::process::exit(2); }
             };
             // the witnesses of this property run as part of every check (regression corpus)
